@@ -80,7 +80,7 @@ def gen_scenario(rng, kind=None):
         side = rng.choice(["res", "ref"])
         D = sides[side]
         fields = D["cols"] if kind == "csv" else D["pf"] + D["cf"]
-        e = rng.choice(["perturb", "perturb", "perturb", "perturb_int", "drop", "rename", "rowcount", "damage", "movepoint"])
+        e = rng.choice(["perturb", "perturb", "perturb", "perturb_int", "drop", "rename", "rowcount", "damage", "movepoint", "retype"])
         if e == "perturb":
             fl = [f for f in fields if (f[1] == "float" or f[1] == "Float64")]
             if not fl:
@@ -107,6 +107,15 @@ def gen_scenario(rng, kind=None):
             i = rng.randrange(len(vals))
             vals[i] = (vals[i] + 1) if not isinstance(vals[i], str) else vals[i] + "x"
             sc["edits"].append([e, side, f[0], i])
+        elif e == "retype" and kind == "csv":
+            # a column that holds numbers on one side and text on the other: its comparison cannot be evaluated (status error)
+            fl = [f for f in fields if f[1] in ("float", "int")]
+            if not fl:
+                continue
+            f = rng.choice(fl)
+            f[1] = "str"
+            f[2] = [rng.choice(["a", "b", "ab", "zz", "q1"]) for _ in f[2]]
+            sc["edits"].append([e, side, f[0]])
         elif e == "drop":
             lst = D["cols"] if kind == "csv" else rng.choice([D["pf"], D["cf"]])
             if len(lst) > (2 if kind == "csv" else 0):     # keep >= 2 CSV columns (single-column files cannot be sniffed/read)
